@@ -260,6 +260,59 @@ def analyse(impl_out, model_out, tol=TOL):
     return res
 
 
+SHAPES = {"ID": "vec", "NE": "vec", "FD": "vec", "FDL": "vec", "MINV": "vec", "CRBA": "mat",
+          "PJ": "cols", "PJ6": "cols", "BSJ": "cols"}
+
+
+def permute(name, toks, perm):
+    """relabel coordinates: entry i of A corresponds to entry perm[i] of B"""
+    sh = SHAPES.get(name)
+    n = len(perm)
+    if sh is None or not perm:
+        return toks
+    if sh == "vec" and len(toks) == n:
+        return [toks[perm[i]] for i in range(n)]
+    if sh == "mat" and len(toks) == n * n:
+        return [toks[perm[i] * n + perm[j]] for i in range(n) for j in range(n)]
+    if sh == "cols" and n and len(toks) % n == 0:
+        rows = len(toks) // n
+        return [toks[r * n + perm[j]] for r in range(rows) for j in range(n)]
+    return toks
+
+
+def twin_analyse(text, impl_out, tol=1e-9):
+    """`#twin A B [perm p0 p1 ...]`: the k-th `call` output of case A must equal that of case B
+    (after the coordinate relabelling); direct statement of C07 / C13 / C15 on the implementation"""
+    A, order = split_lines(impl_out)
+    calls = {}
+    for (k, name) in order:
+        cid = k.rsplit(".", 1)[0]
+        if name in ("add", "append", "dump", "params", "getparent", "getframe", "getid", "setmass", "setcom",
+                    "setinertia", "setparams", "setframe", "UK", "UKC", "join", "separate", "joinsep"):
+            continue
+        calls.setdefault(cid, []).append((k, name))
+    fails, n = [], 0
+    for line in text.splitlines():
+        if not line.startswith("#twin "):
+            continue
+        p = line.split()
+        a, b = p[1], p[2]
+        perm = [int(x) for x in p[4:]] if len(p) > 3 and p[3] == "perm" else []
+        ca, cb = calls.get(a, []), calls.get(b, [])
+        if len(ca) != len(cb):
+            fails.append({"key": a + ".0", "name": "twin", "why": "different number of outputs in twins %s / %s" % (a, b), "impl": [], "spec": []})
+            continue
+        for (ka, na), (kb, nb) in zip(ca, cb):
+            ta = A[(ka, na)]
+            tb = permute(nb, A[(kb, nb)], perm)
+            # B -> A index: entry i of A corresponds to perm[i] of B
+            ok, dev, why = cmpmod.cmp_tokens(ta, tb, tol)
+            n += 1
+            if not ok:
+                fails.append({"key": ka, "name": na, "why": "twin %s vs %s: %s" % (a, b, why), "impl": ta, "spec": tb})
+    return fails, n
+
+
 def extract_case(text, case_id):
     out, on = [], False
     for line in text.splitlines():
@@ -381,6 +434,9 @@ def main(argv):
     if exe_model is not None and text:
         impl_out, model_out, crashed = execute(text)
         an = analyse(impl_out, model_out)
+        tw, ntw = twin_analyse(text, impl_out)
+        an["monitor"] += tw
+        an["n_monitor"] += ntw
         if P.get("impl_monitor"):
             for f in P["impl_monitor"](text, impl_out):
                 f.setdefault("impl", []); f.setdefault("spec", [])
@@ -397,8 +453,13 @@ def main(argv):
         if km and kind in ("monitor", "cert"):
             known_lines.append("KNOWN-FINDING: property=%s %s (%s, case %s)" % (prop, km.get("text", ""), item["name"], cid))
             return
+        ctext = extract_case(extra_text or text, cid)
+        mt = re.match(r"twin (\S+) vs (\S+):", item.get("why", ""))
+        if mt:
+            ctext = extract_case(extra_text or text, mt.group(1)) + extract_case(extra_text or text, mt.group(2)) + \
+                "\n".join(l for l in (extra_text or text).splitlines() if l.startswith("#twin %s %s" % (mt.group(1), mt.group(2)))) + "\n"
         payload = {"property": prop, "kind": kind, "routine": item["name"], "case_id": cid,
-                   "why": item["why"], "case": extract_case(extra_text or text, cid), "detail": item,
+                   "why": item["why"], "case": ctext, "detail": item,
                    "seed": seed, "replay_cmd": "./check %s --replay <this file>" % prop}
         rp = write_replay(prop, "%s_%s_%s" % (kind, item["name"], re.sub(r"\W", "_", cid)), payload)
         violations.append((rp, kind))
